@@ -61,6 +61,7 @@ structure WF (st : State) : Prop where
   host_started : ∀ s t, (st.scopes s).host = some t → (st.tasks t).st ≠ .created
   -- the running task
   running_spec : ∀ t, st.running = some t ↔ (st.tasks t).st = .running
+  outcome_done : ∀ t, (st.tasks t).outcome.isSome → (st.tasks t).st = .done
 
 /-! ### consequences -/
 
@@ -182,7 +183,8 @@ theorem wf_init : WF init := by
   have key : ∀ t : Nat, (if t = 0 then ({ st := TSt.running } : Task) else {}).hasState = false ∧
       (if t = 0 then ({ st := TSt.running } : Task) else {}).scope = none ∧
       (if t = 0 then ({ st := TSt.running } : Task) else {}).group = none ∧
-      (if t = 0 then ({ st := TSt.running } : Task) else {}).hscope = none := by
+      (if t = 0 then ({ st := TSt.running } : Task) else {}).hscope = none ∧
+      (if t = 0 then ({ st := TSt.running } : Task) else {}).outcome = none := by
     intro t; split <;> simp
   constructor <;> simp [init, HandleOk, key]
   · intro t ht; have : t ≠ 0 := by omega
@@ -263,6 +265,7 @@ theorem wf_cframe {a b : State} (h : WF a) (f : CFrame a b) : WF b := by
     · exact .inr h1
   · intro s t; rw [(hS s).host, ne_eq, (hT t).st_created]; exact h.host_started s t
   · intro t; rw [f.running, (hT t).st_running]; exact h.running_spec t
+  · intro t; rw [(hT t).outcome, (hT t).st_done]; exact h.outcome_done t
 
 theorem wf_frame {a b : State} (h : WF a) (f : Frame a b) : WF b := wf_cframe h f.cframe
 
@@ -376,5 +379,6 @@ theorem WF.of_forest {a b : State} (h : WF a)
   · exact hf.host_scope
   · exact hf.host_started
   · intro t; rw [ru, (tk t).1]; exact h.running_spec t
+  · intro t; rw [(tk t).2.2.2.2, (tk t).1]; exact h.outcome_done t
 
 end AnyioModel.Kernel
